@@ -416,6 +416,16 @@ class ExprMixin:
                 continue
             yield from self.get_attr(obj, node.attr, st1, node)
 
+    def unknown_exc_field(self, exc, attr):
+        """An exception that came out of a callee (through its `raises` clause) carries no known fields.  liquer.parser.QueryException.__init__
+        sets original_message, position and query on every instance: nothing is known about their values here (memoised, so that two reads agree)."""
+        if attr in ("original_message", "position", "query") and self.repo.is_subclass(exc.cls, "QueryException"):
+            from .vals import TOpaque as _TOpaque
+            ty = TStr() if attr == "original_message" else (TOpt(TStr()) if attr == "query" else _TOpaque("Any"))
+            exc.fields[attr] = fresh(ty, "exc_" + attr)
+            return exc.fields[attr]
+        return None
+
     def get_attr(self, obj, attr, st, node):
         if isinstance(obj, Callable_) and obj.kind == "module":
             yield st, self.module_attr(obj, attr, node)
@@ -438,6 +448,10 @@ class ExprMixin:
         if isinstance(obj, ExcVal):
             if attr in obj.fields:
                 yield st, obj.fields[attr]
+                return
+            v = self.unknown_exc_field(obj, attr)
+            if v is not None:
+                yield st, v
                 return
             raise Unsupported("exception attribute %s" % attr, node)
         if isinstance(obj, Val) and isinstance(obj.ty, TOpt) and isinstance(obj.ty.inner, TRef):
